@@ -1,3 +1,3 @@
 Require Import ExtrOcamlBasic ExtrOcamlNativeString.
-Require Import MPSV.Total.SkelDefs MPSV.Total.Accept.
-Extraction "../ocaml/total.ml" check_u check_s.
+Require Import MPSV.Total.SkelDefs MPSV.Total.Accept MPSV.Total.SecExtDefs MPSV.Total.SecExtAccept.
+Extraction "../ocaml/total.ml" check_u check_s check_x.
